@@ -23,7 +23,18 @@ def replay(kind):
     return deco
 
 
+def _load_extras():
+    for extra in ("harness.replays_parser", "harness.replays_matrix"):
+        try:
+            __import__(extra)
+        except ModuleNotFoundError as e:
+            if extra not in str(e):
+                raise
+
+
 def run(payload: dict):
+    if payload["kind"] not in REPLAYS:
+        _load_extras()
     try:
         return REPLAYS[payload["kind"]](payload)
     except KeyError:
@@ -466,12 +477,7 @@ def _(p):
 # ------------------------------------------------------------------------------------------------ CLI
 
 if __name__ == "__main__":
-    # extra replay kinds live next to their harnesses but must stay engine-free
-    for extra in ("harness.replays_parser", "harness.replays_matrix"):
-        try:
-            __import__(extra)
-        except ModuleNotFoundError:
-            pass
+    _load_extras()
     rec = json.load(open(sys.argv[1]))
     bad = run(rec["payload"])
     if bad:
